@@ -78,9 +78,12 @@ func MinDepositRef(k keeper.Keeper, ctx sdk.Context, price sdk.Int) sdk.Int {
 
 // Binding installs a binding of service svc with symbolic deposit, pricing, QoS and availability
 // (nT/nV promotions), satisfying the binding invariants (MIN, D).
-func Binding(k keeper.Keeper, ctx sdk.Context, tag, svc string, provider, owner sdk.AccAddress, nT, nV int) BindingSpec {
+func Binding(k keeper.Keeper, ctx sdk.Context, tag, svc string, provider, owner sdk.AccAddress, nT, nV int, allowZero bool) BindingSpec {
 	b := BindingSpec{Provider: provider, Owner: owner, Present: true}
 	b.Deposit = vf.Amount(tag + ".deposit")
+	if !allowZero {
+		vf.Assume(b.Deposit.IsPositive())
+	}
 	b.Text = vf.PricingText(tag+".pricing", nT, nV)
 	p, err := k.ParsePricing(ctx, b.Text)
 	vf.Assume(err == nil)
@@ -92,7 +95,11 @@ func Binding(k keeper.Keeper, ctx sdk.Context, tag, svc string, provider, owner 
 	b.DisabledTime = vf.Time(tag + ".disabledTime")
 	// available bindings hold the minimum deposit (MIN) and carry no disabling time
 	vf.Assume(vf.Implies(b.Available, vf.And(b.DisabledTime.IsZero(), b.Deposit.GTE(MinDepositRef(k, ctx, p.Price.AmountOf(Denom))))))
-	rec := types.NewServiceBinding(svc, provider, coinsOrEmpty(b.Deposit), b.Text, b.QoS, "{}", b.Available, b.DisabledTime, owner)
+	dep := coins(b.Deposit)
+	if allowZero {
+		dep = coinsOrEmpty(b.Deposit)
+	}
+	rec := types.NewServiceBinding(svc, provider, dep, b.Text, b.QoS, "{}", b.Available, b.DisabledTime, owner)
 	k.SetServiceBinding(ctx, rec)
 	k.SetOwnerServiceBinding(ctx, rec)
 	k.SetPricing(ctx, svc, provider, p)
